@@ -32,4 +32,31 @@ theorem lines_beyond_24_bits :
     lcUpTo (List.replicate (2 ^ 24 + 1) LF) (2 ^ 24 + 1) = (2 ^ 24 + 2, 0) :=
   lcUpTo_linefeeds _ _ (Nat.le_refl _)
 
+theorem slot_replicate_x (n k : Nat) (x : Rune) (h1 : 1 ≤ k) (h2 : k ≤ n) : slot (List.replicate n x) k = some x := by
+  unfold slot
+  have : k ≠ 0 := by omega
+  simp only [this, if_false]
+  rw [List.getElem?_replicate]
+  have : k - 1 < n := by omega
+  simp [this]
+
+/-- after k characters that are no line breaks the scanner is on line 1, column k - for EVERY k (no 16-bit column) -/
+theorem lcUpTo_one_line (n k : Nat) (x : Rune) (hx : x ≠ LF ∧ x ≠ CR) (h : k ≤ n) :
+    lcUpTo (List.replicate n x) k = (1, k) := by
+  induction k with
+  | zero => rfl
+  | succ j ih =>
+    have hj : j ≤ n := by omega
+    unfold lcUpTo
+    have hlen : j + 1 ≤ (List.replicate n x).length := by simpa using h
+    simp only [hlen, if_true, ih hj]
+    unfold stepLC
+    rw [slot_replicate_x n (j+1) x (by omega) h]
+    have h1 : (some x != some LF) = true := by simp [hx.1]
+    have h2 : (some x != some CR) = true := by simp [hx.2]
+    simp [isLine, isColumn, h1, h2, hx.1, hx.2]
+
+theorem columns_beyond_16_bits : lcUpTo (List.replicate 72000 120) 72000 = (1, 72000) :=
+  lcUpTo_one_line _ _ 120 (by decide) (Nat.le_refl _)
+
 end Verif
